@@ -147,6 +147,21 @@ func Increasing(t *rapid.T, k int, style int, label string) []float64 {
 			}
 			out[i] = v
 		}
+	case 5:
+		// the top binades, all of one sign: differences are representable, sums and midpoints
+		// computed as (a+b)/2 are not (round 11, R11-C10)
+		v = 9e307 + Unit(t, label+".start")*1e307
+		for i := range out {
+			if i > 0 {
+				v = next(v, LogUniform(t, 1e292, 7e307/float64(k+1), label+".step"))
+			}
+			out[i] = v
+		}
+		if rapid.Bool().Draw(t, label+".negative") {
+			for i, j := 0, len(out)-1; i <= j; i, j = i+1, j-1 {
+				out[i], out[j] = -out[j], -out[i]
+			}
+		}
 	default:
 		v = -5e-324 * float64(rapid.IntRange(0, 4).Draw(t, label+".start"))
 		for i := range out {
